@@ -417,7 +417,8 @@ func vwHonestVoucherDev(mk int, mfgKey *verif.ModelSigner, n int, secret []byte,
 	devCert := verif.NewCert(devPub, verif.Bytes("serial", 4))
 	chain := []*cbor.X509Certificate{(*cbor.X509Certificate)(devCert)}
 	v.CertChain = &chain
-	hdr := VoucherHeader{Version: 101, GUID: guid, DeviceInfo: verif.String("devinfo", 1), ManufacturerKey: vwPublicKey(mk, mfgKey.Pub)}
+	hdr := VoucherHeader{Version: 101, GUID: guid, DeviceInfo: verif.String("devinfo", 1), ManufacturerKey: vwPublicKey(mk, mfgKey.Pub),
+		RvInfo: [][]protocol.RvInstruction{{{Variable: protocol.RVDns, Value: []byte{0x62, 0x72, 0x76}}}}}
 	halg, err := hashAlgFor(devPub, mfgKey.Pub)
 	verif.Assert(err == nil, "hash strength")
 	hdr.CertChainHash = &protocol.Hash{Algorithm: halg, Value: vwHashOf(halg, devCert.Raw)}
